@@ -105,6 +105,23 @@ CLAIMED = {
         "the same actions (Trace_C11).",
    note="Entry point order read from the installation; ties among equally specific built-ins are left open but must be repeatable.",
    ref="5 C11"),
+ "C12": dict(
+   text="TLC checks for every column of 2-4 layers (all validity patterns, gaps included) x every orientation / sign / attribute "
+        "presence that the operational reduction (normalise to positive-down shallow-first, argmax of the cumulative valid count) "
+        "returns the declaratively defined deepest valid value, from any state reached by normalisations; real ocean_floor calls "
+        "(function and accessor) on datasets of every convention with one or two depth coordinates, static sea floors with dry and "
+        "full columns and gaps, depth dimension in shuffled positions are validated by TLC: deepest valid value per location and "
+        "time, depth dimension and coordinates removed, other variables and the geometry untouched.",
+   note="Static sea floor (the property's quantifier) is guaranteed by the generator; the order of the remaining dimensions of a reduced variable is not significant.",
+   ref="5 C12"),
+ "C13": dict(
+   text="TLC explores histories of up to 2-3 normalisations with all 9 option combinations over every coordinate of the bounded "
+        "universe and checks PhysDepthPreserved, DataMovesTogether, SignAsRequested, OrderAsRequested, BoundsFollow, Idempotent, "
+        "UnsetUntouched; real normalize_depth_variables calls (function and accessor, all 9 combinations, repeated) on datasets of "
+        "every convention are validated by TLC exactly against the same Normalise operator (coordinates, bounds, every variable) "
+        "and against the declarative clauses, with the input projected again after each call (InputUnmodified).",
+   note="Withheld positive attribute: values are such that the documented guess is right; integer depth values.",
+   ref="5 C13"),
  "C15": dict(
    text="TLC checks on the bounded universe that the specification's export list (valid cells only, ascending, each with its "
         "linear and native index) satisfies OnlyValidCells / EveryValidCellOnce / LinearOrder / IndexesIdentifyCell; files written "
